@@ -236,11 +236,14 @@ Proof.
   rewrite E. reflexivity.
 Qed.
 
-(* every Lua-integer count: rotation by the count reduced mod BITS *)
-Theorem brol_correct x y : wf x -> in_i64 y ->
-  exists r, brol x y = Some r /\ wf r /\ uval r = rotl (uval x) y.
+(* facts about the scraped policy: a revert of the repair flips the boolean and the theorems below stop checking *)
+Lemma rot_policy_fact : rot_reduces_count = true. Proof. reflexivity. Qed.
+
+(* every Lua-integer count: rotation by the count reduced mod BITS - for the policy that reduces the count *)
+Theorem brol_pol_correct x y : wf x -> in_i64 y ->
+  exists r, brol_pol true x y = Some r /\ wf r /\ uval r = rotl (uval x) y.
 Proof.
-  intros Hx _. unfold brol, imod_bits. pose proof bits_ge64.
+  intros Hx _. unfold brol_pol, imod_bits. pose proof bits_ge64.
   pose proof (Z.mod_pos_bound y BINT_BITS ltac:(lia)) as Hm. rewrite <- (rotl_mod (uval x) y).
   destruct (y mod BINT_BITS =? 0) eqn:E.
   - apply Z.eqb_eq in E. rewrite E. exists x. split; [reflexivity|]. split; [exact Hx|].
@@ -248,15 +251,35 @@ Proof.
   - apply brol_pos_spec; auto. lia.
 Qed.
 
-Theorem bror_correct x y : wf x -> in_i64 y ->
-  exists r, bror x y = Some r /\ wf r /\ uval r = rotl (uval x) (- y).
+Theorem bror_pol_correct x y : wf x -> in_i64 y ->
+  exists r, bror_pol true x y = Some r /\ wf r /\ uval r = rotl (uval x) (- y).
 Proof.
-  intros Hx _. unfold bror, imod_bits. pose proof bits_ge64.
+  intros Hx _. unfold bror_pol, imod_bits. pose proof bits_ge64.
   pose proof (Z.mod_pos_bound y BINT_BITS ltac:(lia)) as Hm. rewrite <- (rotl_opp_mod (uval x) y).
   destruct (y mod BINT_BITS =? 0) eqn:E.
   - apply Z.eqb_eq in E. rewrite E. exists x. split; [reflexivity|]. split; [exact Hx|].
     unfold rotl. cbn [Z.opp]. rewrite Z.mod_0_l by lia. reflexivity.
   - apply bror_pos_spec; auto. lia.
+Qed.
+
+Theorem brol_correct x y : wf x -> in_i64 y ->
+  exists r, brol x y = Some r /\ wf r /\ uval r = rotl (uval x) y.
+Proof. unfold brol. rewrite rot_policy_fact. apply brol_pol_correct. Qed.
+Theorem bror_correct x y : wf x -> in_i64 y ->
+  exists r, bror x y = Some r /\ wf r /\ uval r = rotl (uval x) (- y).
+Proof. unfold bror. rewrite rot_policy_fact. apply bror_pol_correct. Qed.
+
+(* the reduction is needed: the policy that branches on the sign of the count is not a rotation
+   (witnesses: 2^(BITS-1) rotated left by BITS+1, 1 rotated right by BITS+1) *)
+Theorem rot_reduction_needed :
+  ~ (forall x y, wf x -> in_i64 y -> exists r, brol_pol false x y = Some r /\ wf r /\ uval r = rotl (uval x) y) /\
+  ~ (forall x y, wf x -> in_i64 y -> exists r, bror_pol false x y = Some r /\ wf r /\ uval r = rotl (uval x) (- y)).
+Proof.
+  split; intros H.
+  - specialize (H bint_mininteger (BINT_BITS + 1) (proj1 mininteger_correct) ltac:(vm_compute; split; discriminate)).
+    destruct H as (r & A & _ & C). vm_compute in A. injection A as <-. vm_compute in C. discriminate.
+  - specialize (H bint_one (BINT_BITS + 1) (proj1 wf_one) ltac:(vm_compute; split; discriminate)).
+    destruct H as (r & A & _ & C). vm_compute in A. injection A as <-. vm_compute in C. discriminate.
 Qed.
 
 (* rotl is the mathematical rotation: the two parts occupy disjoint bits *)
